@@ -81,6 +81,7 @@ Op gen_hash(Ctx &c, GHash &g, int obj, bool erase_bias) {
 // ------------------------------------------------------------ hmac family
 size_t hmac_keylen(Rng &r) {
     static const size_t K[] = {0, 0, 1, 16, 31, 32, 33, 63, 64, 65, 66, 127, 128, 200};
+    if (r.chance(1, 40)) return 400 + r.below(1700);
     if (r.chance(1, 5)) return r.below(400);
     return K[r.below(14)];
 }
@@ -128,7 +129,8 @@ Op gen_hmac(Ctx &c, GHmac &g, int obj, bool erase_bias) {
 }
 
 // ------------------------------------------------------------ hkdf family
-size_t hkdf_saltlen(Rng &r) { static const size_t S[] = {0, 0, 1, 32, 64, 65, 100, 16}; return S[r.below(8)]; }
+size_t hkdf_saltlen(Rng &r) { static const size_t S[] = {0, 0, 1, 32, 64, 65, 100, 16}; if (r.chance(1, 25)) return 101 + r.below(300); return S[r.below(8)]; }
+size_t hkdf_infolen(Rng &r) { if (r.chance(1, 25)) return 81 + r.below(400); return r.below(81); }
 Op gen_hkdf(Ctx &c, GHkdf &g, int obj, bool erase_bias) {
     Rng &r = c.r;
     uint32_t x = r.below(100);
@@ -138,7 +140,7 @@ Op gen_hkdf(Ctx &c, GHkdf &g, int obj, bool erase_bias) {
         static const size_t L[] = {0, 1, 31, 32, 33, 64, 100, 8159, 8160, 8161, 8192, 100000, 42, 82};
         o.a = r.chance(1, 4) ? small_len(r) : L[r.below(14)];
         if (!c.thorough && o.a >= 8159 && o.a <= 8160 && r.chance(1, 2)) o.a = 8161; // keep quick runs cheap: refusals cost nothing
-        o.b = r.below(70); o.c = hkdf_saltlen(r); o.d = r.below(81); o.dseed = ds(r);
+        o.b = r.chance(1, 25) ? r.below(600) : r.below(70); o.c = hkdf_saltlen(r); o.d = hkdf_infolen(r); o.dseed = ds(r);
         if (o.c == 0 && r.chance(1, 2)) o.flags |= F_NULLPTR;
         return o;
     }
@@ -155,9 +157,9 @@ Op gen_hkdf(Ctx &c, GHkdf &g, int obj, bool erase_bias) {
     o.dseed = ds(r);
     switch (o.kind) {
     case K_EXTRACT:
-        o.a = r.chance(1, 4) ? r.below(200) : r.below(40);
+        o.a = r.chance(1, 25) ? r.below(600) : r.chance(1, 4) ? r.below(200) : r.below(40);
         o.b = hkdf_saltlen(r);
-        o.c = r.below(81);
+        o.c = hkdf_infolen(r);
         if (o.b == 0 && r.chance(1, 2)) o.flags |= F_NULLPTR;
         if (o.c == 0 && r.chance(1, 2)) o.flags |= F_NOCUSTOM;
         g.st = ST_LIVE; g.cur = 0; g.exhaust = r.chance(c.thorough ? 30 : 12, 100);
@@ -261,7 +263,7 @@ Op gen_prng(Ctx &c, GPrng &g, int obj, bool erase_bias, bool sys_only) {
         else if (allow_sys && y < 18) o.flags |= F_SYSTEM;
         else if (allow_sys && y < 36 && c.armed != C16) o.flags |= F_NULLCB;
         g.system = (o.flags & (F_SYSTEM | F_NULLCB)) != 0;
-        o.a = r.chance(1, 4) ? 0 : r.below(60);
+        o.a = r.chance(1, 4) ? 0 : r.chance(1, 25) ? r.below(400) : r.below(60);
         if (o.a == 0 && r.chance(1, 2)) o.flags |= F_NOCUSTOM;
         if (g.system) o.os.push_back(os_script(c, true)); else o.del.push_back(delivery(c));
         g.st = ST_LIVE; g.counter = 1; g.limit = 32; g.since = 0;
@@ -294,7 +296,7 @@ Op gen_prng(Ctx &c, GPrng &g, int obj, bool erase_bias, bool sys_only) {
         break;
     }
     case P_FEED:
-        o.a = r.chance(1, 5) ? 0 : 1 + r.below(100);
+        o.a = r.chance(1, 5) ? 0 : r.chance(1, 30) ? 1 + r.below(2000) : 1 + r.below(100);
         if (o.a == 0 && r.chance(1, 2)) o.flags |= F_NULLPTR;
         g.counter++;
         if (r.chance(1, 12)) { // a run of feeds: budget edge, and (rarely) the 8/16-bit corners of the block counter
@@ -339,7 +341,8 @@ Op gen_clean(Ctx &c) {
     o.a = r.below(16) + (r.chance(1, 4) ? 16 * r.below(3) : 0);
     uint32_t y = r.below(100);
     if (y < 30) { static const size_t S[] = {0, 1, 2, 3, 4, 7, 8, 9, 15, 16, 17, 31, 32, 33, 63, 64, 65, 255, 256, 300}; o.b = S[r.below(20)]; }
-    else o.b = r.below(301);
+    else if (y < 94) o.b = r.below(301);
+    else { static const size_t BS[] = {511, 512, 513, 1023, 1024, 1025, 4095, 4096, 4097, 8000}; o.b = r.chance(1, 2) ? BS[r.below(10)] : 301 + r.below(7800); }
     o.dseed = ds(r);
     return o;
 }
